@@ -347,6 +347,15 @@ func genSession(r *rng, t *tree, n int, allowWrite bool, mutatingPct int) []creq
 					p = strings.TrimSuffix(ds[r.intn(len(ds))], "/") + "/new" + fmt.Sprint(r.intn(3))
 				}
 				reqs = append(reqs, creq{op: opCreateFile, path: p})
+				if r.chance(35) {
+					// a whole upload in the protocol's own idiom: write, end it with CREATE_FILE on a
+					// directory, and one more WRITE_FILE that must find no write file any more
+					pl := []byte(fmt.Sprintf("chunk-%d", r.intn(1000)))
+					ds := t.pathsOf('d')
+					reqs = append(reqs, creq{op: opWriteFile, payload: pl, announced: uint32(len(pl))},
+						creq{op: opCreateFile, path: ds[r.intn(len(ds))]},
+						creq{op: opWriteFile, payload: pl, announced: uint32(len(pl))})
+				}
 			case 2, 3:
 				sz := r.pick(0, 1, 100, 2048, 65535, 65536, 65537, 140000)
 				pl := make([]byte, sz)
